@@ -1,50 +1,79 @@
 (** Concurrent local writers on one store ([base_store.go AddOperation]): the log append
     is atomic (the log's lock); persisting the new head ([_localHeads]) and rebuilding the
     view happen afterwards, outside that lock.  Entries are numbered in append order and
-    each new entry's [next] is the previous head, so entry [k]'s ancestry is [1..k]. *)
+    each new entry's [next] is the previous head, so entry [k]'s ancestry is [1..k].
+
+    A writer thread performs a given number of single-entry writes one after the other:
+    a multi-entry call ([documentstore.PutBatch], which loops over [Put]) and a sequence of
+    calls issued by one goroutine are both such threads.  Between two of its writes a thread
+    holds nothing, so other threads' writes may come in between. *)
 From Orbit Require Export Model.Base.
 
-Inductive wpc := WStart | WAppended (e : nat) | WPersisted (e : nat) | WIndexRead (e n : nat) | WDone (e : nat).
+(** where a thread is inside its current write; [WIdle] = between writes (or before the
+    first / after the last one) *)
+Inductive wpc := WIdle | WAppended (e : nat) | WPersisted (e : nat) | WIndexRead (e n : nat).
+
+Record wthr := mkWT {
+  wt_pc   : wpc;
+  wt_left : nat;           (* writes this thread has not started yet *)
+  wt_acks : list nat       (* entries of its completed (acknowledged) writes, oldest first *)
+}.
 
 Record wst := mkW {
-  w_pcs   : list wpc;     (* one program counter per writer thread *)
+  w_thr   : list wthr;    (* the writer threads *)
   w_log   : nat;          (* number of entries appended so far = the log's head *)
   w_cache : nat;          (* entry stored under _localHeads (0 = nothing) *)
   w_view  : nat           (* the view reflects entries 1..w_view *)
 }.
 
 (** label = which writer thread takes its next step *)
-Definition set_pc (i : nat) (p : wpc) (l : list wpc) : list wpc :=
-  firstn i l ++ match skipn i l with [] => [] | _ :: t => p :: t end.
+Definition set_thr (i : nat) (t : wthr) (l : list wthr) : list wthr :=
+  firstn i l ++ match skipn i l with [] => [] | _ :: r => t :: r end.
 
 (** [atomic]: append + persist + view update form one critical section (true); false =
     the pinned commit, where only the append is atomic. *)
 Definition wstep (atomic : bool) (s : wst) (i : nat) : option wst :=
-  match nth_error (w_pcs s) i with
-  | Some WStart =>
-    let e := S (w_log s) in
-    if atomic
-    then Some (mkW (set_pc i (WDone e) (w_pcs s)) e e e)
-    else Some (mkW (set_pc i (WAppended e) (w_pcs s)) e (w_cache s) (w_view s))
-  | Some (WAppended e) => Some (mkW (set_pc i (WPersisted e) (w_pcs s)) (w_log s) e (w_view s))
-  | Some (WPersisted e) =>
-    (* UpdateIndex reads the whole current log (Values()) before taking the index lock ... *)
-    Some (mkW (set_pc i (WIndexRead e (w_log s)) (w_pcs s)) (w_log s) (w_cache s) (w_view s))
-  | Some (WIndexRead e n) =>
-    (* ... and then applies what it read *)
-    Some (mkW (set_pc i (WDone e) (w_pcs s)) (w_log s) (w_cache s) n)
-  | _ => None
+  match nth_error (w_thr s) i with
+  | Some t =>
+    match wt_pc t with
+    | WIdle =>
+      match wt_left t with
+      | O => None
+      | S k =>
+        let e := S (w_log s) in
+        if atomic
+        then Some (mkW (set_thr i (mkWT WIdle k (wt_acks t ++ [e])) (w_thr s)) e e e)
+        else Some (mkW (set_thr i (mkWT (WAppended e) k (wt_acks t)) (w_thr s)) e (w_cache s) (w_view s))
+      end
+    | WAppended e =>
+      Some (mkW (set_thr i (mkWT (WPersisted e) (wt_left t) (wt_acks t)) (w_thr s)) (w_log s) e (w_view s))
+    | WPersisted e =>
+      (* UpdateIndex reads the whole current log (Values()) before taking the index lock ... *)
+      Some (mkW (set_thr i (mkWT (WIndexRead e (w_log s)) (wt_left t) (wt_acks t)) (w_thr s))
+                (w_log s) (w_cache s) (w_view s))
+    | WIndexRead e n =>
+      (* ... and then applies what it read; the write returns its entry *)
+      Some (mkW (set_thr i (mkWT WIdle (wt_left t) (wt_acks t ++ [e])) (w_thr s)) (w_log s) (w_cache s) n)
+    end
+  | None => None
   end.
 
-Definition winit (n : nat) : wst := mkW (repeat WStart n) 0 0 0.
+(** one thread per element of [counts], performing that many writes *)
+Definition winitc (counts : list nat) : wst :=
+  mkW (map (fun c => mkWT WIdle c []) counts) O O O.
+
+(** [n] threads, one write each *)
+Definition winit (n : nat) : wst := winitc (repeat 1%nat n).
 
 Definition wrun (atomic : bool) (sched : list nat) (s : wst) : wst :=
   fold_left (fun s i => match wstep atomic s i with Some s' => s' | None => s end) sched s.
 
-Definition all_done (s : wst) : Prop := forall p, In p (w_pcs s) -> exists e, p = WDone e.
+Definition thr_done (t : wthr) : Prop := wt_pc t = WIdle /\ wt_left t = O.
+Definition all_done (s : wst) : Prop := forall t, In t (w_thr s) -> thr_done t.
 
-Definition returned (s : wst) : list nat :=
-  flat_map (fun p => match p with WDone e => [e] | _ => [] end) (w_pcs s).
+(** the entries acknowledged to the callers: per thread, and all together *)
+Definition acks (s : wst) : list (list nat) := map wt_acks (w_thr s).
+Definition returned (s : wst) : list nat := flat_map wt_acks (w_thr s).
 
 (** recovery loads the ancestry of the cached head: entries 1..w_cache *)
 Definition recovered (s : wst) : nat := w_cache s.
